@@ -1,7 +1,7 @@
 // ---- spec/request_abs.rs : abstract states and step semantics of the request-preamble parser.
 // Written from the FastCGI specification and the statements of C01/C03/C04/C05/C06/C11:
 // what a conforming server must do with the next bytes of the record stream, given where it is.
-pub struct ReqAbs { pub id: u16, pub role: fcgi::Role, pub flags: u8, pub log: Seq<(Seq<u8>, Seq<u8>)> }
+// (ReqAbs and params_payload live in spec/req_payload.rs, shared with the lemma unit reqlemmas)
 
 // what follows a skipped / answered record
 pub enum NextAbs {
@@ -148,9 +148,6 @@ pub open spec fn header_step(d: Seq<u8>) -> StepSpec {
 // ---- inside the Params stream.  `c` = payload bytes consumed when the record's payload is only partly
 // available (implementation-chosen split between its carry buffer and the unread input; everything
 // that follows is a function of the consumed prefix only).
-pub open spec fn params_payload(req: ReqAbs, carry: Seq<u8>, t: Seq<u8>) -> (ReqAbs, Seq<u8>) {
-    (ReqAbs { id: req.id, role: req.role, flags: req.flags, log: req.log + decode_pairs(carry + t) }, decode_rest(carry + t))
-}
 #[verifier::opaque]
 pub open spec fn params_step(req: ReqAbs, carry: Seq<u8>, p: u16, q: u8, d: Seq<u8>, c: int) -> StepSpec {
     if p > 0 && d.len() < p {
